@@ -75,7 +75,17 @@ def check(case) -> Result:
             _, _, exp = R.worm_mating(specs[mi], specs[si], call['x'])
             flag[mi if specs[mi]['type'] == 'worm' else si] = exp.get('self_locking') if exp else None
 
-    for call in case['calls']:
+    early = case.get('early_at')
+    for ci, call in enumerate(case['calls']):
+        if early is not None and ci == early:
+            # a first assembly half-way through the declarations: powertrains built later must not inherit anything
+            for mi0, s0 in enumerate(specs):
+                if s0['type'] == 'motor' and not reaches(mi0, mi0):
+                    try:
+                        Powertrain(motor=els[mi0])
+                    except Exception:  # noqa
+                        pass
+            classes.add('early-assembly')
         declare(call)
 
     def expected_chain(motor_ix):
@@ -224,16 +234,53 @@ def s_case(draw):
         calls.append(c)
         last = c['s']
     later = [s_call() for _ in range(draw(st.integers(0, 3)))]
+    early_at = draw(st.integers(0, max(0, len(calls) - 1))) if draw(st.integers(0, 2)) == 0 else None
     worm_calls = [c for c in calls if c['fn'] == 'worm']
     if worm_calls and draw(st.booleans()):
         # re-declare an earlier worm mating with a friction coefficient on the other side of the criterion
         c = dict(draw(st.sampled_from(worm_calls)))
         c['x'] = draw(st.sampled_from([0.0, 0.01, 0.9, 0.99, 1.0]))
         later.append(c)
-    return {'elements': els, 'calls': calls, 'later': later}
+    return {'elements': els, 'calls': calls, 'later': later, 'early_at': early_at}
+
+
+def check_lifecycle(case) -> Result:
+    """elements and the self-locking flag of a powertrain stay what they were through runs, early stops, resets and
+    reruns"""
+    from vp import sim as S
+    from vp import model as M
+    res = Result()
+    try:
+        b = S.build(case)
+    except Exception as e:  # noqa
+        res.classes += (f'build-rejected:{type(e).__name__}',)
+        return res
+    mdl = b.model
+    pt = b.powertrain
+    els0 = tuple(pt.elements)
+    if not mdl.locking_ambiguous and pt.self_locking is not mdl.self_locking:
+        res.bad('C20/self-locking-flag', f'assembled powertrain self_locking={pt.self_locking!r}, model says {mdl.self_locking!r}')
+    sl0 = pt.self_locking
+    for j, op in enumerate(case['history']):
+        try:
+            S.run_op(b, op)
+        except Exception as e:  # noqa
+            res.classes += ('run-raised',)
+            break
+        if pt.self_locking is not sl0 or tuple(pt.elements) != els0 or any(x is not y for x, y in zip(pt.elements, els0)):
+            res.bad(f'C20/changed-by-{op["op"]}', f'after op {j} ({op["op"]}): self_locking {sl0!r} -> {pt.self_locking!r}, '
+                    f'elements {[e.name for e in pt.elements]}')
+            break
+    res.nontrivial = any(e['type'] == 'worm' for e in mdl.elements) and len(case['history']) >= 2
+    res.classes += ('self-locking' if mdl.self_locking else 'free', f'ops:{len(case["history"])}')
+    return res
 
 
 def parts(tier):
+    from vp import gen as G
+    life = Part('lifecycle', check_lifecycle,
+                strategy=G.s_case(max_len=5, worm='yes', max_steps=12, histories=('run+continue', 'reset+rerun')),
+                examples=60 if tier == 'quick' else 1500, shards=2 if tier == 'quick' else 4)
     if tier == 'quick':
-        return [Part('assembly', check, strategy=s_case(), examples=1200, shards=4)]
-    return [Part('assembly', check, strategy=s_case(), examples=12000, shards=16)]
+        return [Part('assembly', check, strategy=s_case(), examples=1200, shards=4), life]
+    return [Part('assembly', check, strategy=s_case(), examples=12000, shards=12), life]
